@@ -9,27 +9,28 @@ from check import Failure
 from sfv import gen
 from sfv.canon import tok, untok, err_cat, hash_class
 from sfv.ordutil import mtok, mtok_orderable, pyval, parse_answer, wire_list, label_toks, frame_cols
+from sfv.props import c13_window_gen as wgen        # the window skeleton translated from the source (py2lean_window)
 
-TARGETS = ['SFModel.Props.C13']
+TARGETS = ['SFModel.Props.C13'] + wgen.TARGETS
 THEOREMS = [
     'SF.C13.spec_partition', 'SF.C13.groups_partition_generic', 'SF.C13.groups_partition_sort',
     'SF.C13.group_paths_agree', 'SF.C13.selector_irrelevant', 'SF.C13.groups_ascending', 'SF.C13.apply_labels',
     'SF.C13.window_fuel', 'SF.C13.window_exact', 'SF.C13.window_rejects', 'SF.C13.window_in_range',
-]
+] + wgen.THEOREMS
 PARTIAL = []
 CORR_ONLY = [
     'np.unique (sorted distinct keys + inverse) is a parameter of the model, compared through util.array_to_groups_and_locations on every run',
     'label-depth grouping (iter_group_labels*) and multi-column keys: the model groups the key tuples; which tuple a row has is read by the harness',
     'the string fallback of array_to_groups_and_locations for non-comparable object keys is not modelled (oracle only; see finding F52; its axis-1 and flattened-inverse repairs 2295c49 / 60e8b9c are under the strict oracle)',
     'window contents (which labels / values a window holds) are read from the real sub-containers and compared with the positions the model yields',
-]
+] + wgen.CORR_ONLY
 RULE = ('seeded Series / Frames (all block layouts, flat and hierarchical labels) with 1..n distinct key values (single group, all distinct), '
         'int / float / str / bool / date / object / mixed-type keys, single and multiple key columns, both axes, label-depth grouping, '
         'iter_group / iter_group_items / iter_group_labels(_items) / apply, both internal paths called directly; windows over every '
         'combination of size, step (incl. 0), window_sized, label_shift, start_shift, size_increment, window_valid on Series and Frames '
         '(both axes, container / array / apply routes); thorough adds all key vectors of length <= 6 over 3 values and all window '
         'parameter tuples with size <= 4, step <= 3, shifts in [-2,2], increments in [-1,1], n <= 6. non-trivial = >= 2 rows (groups) / n >= 1 (windows)')
-TRUSTED = ['np.unique / np.argsort kernels (parameter)', "the driver's comparison leAtom on value tokens (see C12)"]
+TRUSTED = ['np.unique / np.argsort kernels (parameter)', "the driver's comparison leAtom on value tokens (see C12)"] + wgen.TRUSTED
 ASSUMPTIONS = ['group keys are not NaN / NaT (equality-based grouping is undefined for them; the fast path makes every NaN its own group, np.unique merges them)',
                'keys of one non-object key column are mutually comparable']
 BUDGET = {'quick': 60, 'thorough': 700}
@@ -249,6 +250,7 @@ def exhaustive_windows():
 def cases(ctx):
     rng = ctx.rng('main')
     quick = ctx.tier == 'quick'
+    yield from wgen.cases(ctx)      # translated window skeleton vs the real axis_window_items (grid) + its two primitives
     for _ in range(400 if quick else 3000):
         yield gl_case(rng, rng.choice([0, 1, 2, 3, 5, 8, 20]))
     for _ in range(14000 if quick else 350000):
@@ -267,6 +269,7 @@ def cases(ctx):
 
 
 def search(ctx):
+    yield from wgen.search(ctx)
     rng = ctx.rng('search')
     for _ in range(40000):
         r = rng.random()
@@ -276,6 +279,8 @@ def search(ctx):
 
 
 def nontrivial(c):
+    if c['k'] in ('wgrid', 'wsem'):
+        return wgen.nontrivial(c)
     if c['k'] == 'gl':
         return len(c['v']) >= 2
     if c['k'] == 'sgroup':
@@ -347,13 +352,15 @@ def model_key_toks(keys):
 
 
 def model_lines(c):
+    if c['k'] in ('wgrid', 'wsem'):
+        return wgen.model_lines(c)
     if c['k'] == 'gl':
         ks = wire_list([mtok(x) for x in gen.col_array(c['dt'], c['v'])])
         return [f'group.locations {ks}', f'group.generic {ks}', f'group.sort {ks}', f'group.spec {ks}']
     if c['k'] == 'window':
         f = lambda v: 'N' if v is None else str(v)
         args = f'{c["n"]} {c["size"]} {c["step"]} {int(c["sized"])} {c["ls"]} {c["ss"]} {c["inc"]} {f(c["excl"])}'
-        return [f'window.items {args}', f'window.spec {args}']
+        return [f'window.items {args}', f'window.spec {args}', wgen.gen_line(c)]
     keys, multi = group_keys_ref(c)
     if multi or key_dtype_object(c):
         return []
@@ -370,6 +377,8 @@ def model_lines(c):
 
 # ------------------------------------------------------------------ evaluation
 def evaluate(ctx, c, outs):
+    if c['k'] in ('wgrid', 'wsem'):
+        return wgen.evaluate(ctx, c, outs)
     if c['k'] == 'gl':
         return eval_gl(ctx, c, outs)
     if c['k'] == 'window':
@@ -801,6 +810,8 @@ def eval_window(ctx, c, outs):
             fails.append(Failure('oracle', f'{where}: illegal size/step must raise RuntimeError, got {real[:2]}', c))
         if outs and parse_answer(outs[0]) != ref:
             fails.append(Failure('corr', f'{where}: model {outs[0]} vs expected {ref}', c))
+        if len(outs) > 2:
+            fails += wgen.check_gen(where, c, outs[2], ref)
         return fails
     if real[0] == 'err':
         fails.append(Failure('oracle', f'{where}: raised {type(real[2]).__name__}: {real[2]}', c,
@@ -870,6 +881,8 @@ def eval_window(ctx, c, outs):
             fails.append(Failure('corr', f'{where}: model {gotm} vs real/reference {realm}', c))
         if outs[1] != outs[0]:
             fails.append(Failure('corr', f'{where}: model loop {outs[0]} vs model spec {outs[1]}', c))
+        if len(outs) > 2:
+            fails += wgen.check_gen(where, c, outs[2], realm)
     return fails
 
 
